@@ -118,5 +118,6 @@ def run(ctx):
         ctx.run("C02-P6", "functions that move jobs into a place clean the places the jobs can come from (no duplication)", c02.p6_moves_clean_sources, floor=18)
         ctx.run("C02-O1", "sub-jobs of a multi job are inserted left to right", c02.o1_subjob_order, floor=3)
         ctx.run("C02-P5", "empty tours are dropped after the last state acceptance", c02.p5_empty_tours_removed_last, floor=3)
+        ctx.run("C02-D1", "decomposition hands the parent's pending pools to one partial context only", c02.d1_decomposition_partitions_pools, floor=3)
     except (ImportError, AttributeError):
         pass
